@@ -5,6 +5,8 @@
 (* and outputs (integers as limb sequences, floats as sign/mantissa/       *)
 (* exponent from their bit patterns); all arithmetic is done here.         *)
 (*                                                                         *)
+(* A "Start" event opens a scan (function, formats; uo = 1 marks an        *)
+(* unordered scan: points in random order, judged individually).           *)
 (* A "Start" event opens a scan (function, formats).  Inside a scan the    *)
 (* points come in increasing input order, so order preservation and        *)
 (* injectivity are action properties of the scan machine whose state is    *)
@@ -197,9 +199,9 @@ Next ==
        THEN cur' = e /\ prev' = NoPrev /\ UNCHANGED <<nbad, njudged>>
        ELSE LET v == Verdict(e) IN
             /\ UNCHANGED cur /\ njudged' = njudged + 1
-            /\ IF v = "ok" THEN nbad' = nbad /\ prev' = NextPrev(e)
+            /\ IF v = "ok" THEN nbad' = nbad /\ prev' = (IF cur.uo = 1 THEN NoPrev ELSE NextPrev(e))
                ELSE /\ nbad' = nbad + 1
-                    /\ prev' = (IF v = "order" THEN prev ELSE NextPrev(e))
+                    /\ prev' = (IF cur.uo = 1 THEN NoPrev ELSE IF v = "order" THEN prev ELSE NextPrev(e))
                     /\ (nbad < 60 => PrintT(<<"MISMATCH", l, cur.tid, e.op, v, "-", "-", FALSE>>))
 
 Spec == Init /\ [][Next]_tvars
